@@ -8,11 +8,13 @@ ids=("$@"); [ ${#ids[@]} -eq 0 ] && ids=($(ls seeded))
 OUT=/var/tmp/verif-seeded-matrix; rm -rf "$OUT"; mkdir -p "$OUT"
 if [ -n "$(git -C /repo status --porcelain)" ]; then echo "/repo is not clean"; exit 9; fi
 for id in "${ids[@]}"; do
-  prop=$(python3 -c "import json;print(json.load(open('seeded/$id/meta.json'))['breaks_property'])")
+  props=$(python3 -c "import json;m=json.load(open('seeded/$id/meta.json'));print(' '.join(sorted(set([m['breaks_property']])|set(m['caught_by']))))")
   git -C /repo apply "seeded/$id/patch.diff" || { echo "$id PATCH-FAILED"; continue; }
-  VERIF_EVIDENCE_DIR="$OUT/evidence" VERIF_REPLAY_DIR="$OUT/replays" VERIF_SHRINK_S=20 ./check "$prop" --tier quick > "$OUT/$id.log" 2>&1
-  rc=$?
+  for prop in $props; do
+    VERIF_EVIDENCE_DIR="$OUT/evidence" VERIF_REPLAY_DIR="$OUT/replays" VERIF_SHRINK_S=20 ./check "$prop" --tier quick > "$OUT/$id-$prop.log" 2>&1
+    rc=$?
+    echo "$id $prop exit=$rc $(grep -m1 '^violation class' "$OUT/$id-$prop.log" | cut -c1-120)"
+  done
   git -C /repo checkout -- .
-  echo "$id $prop exit=$rc $(grep -m1 '^violation class' "$OUT/$id.log" | cut -c1-120)"
 done
 git -C /repo status --porcelain
